@@ -2,6 +2,7 @@ package transactional
 
 import (
 	"errors"
+	"io"
 
 	"github.com/go-git/go-git/v6/plumbing"
 	"github.com/go-git/go-git/v6/plumbing/storer"
@@ -22,6 +23,14 @@ func NewObjectStorage(base, temporal storer.EncodedObjectStorer) *ObjectStorage 
 // SetEncodedObject honors the storer.EncodedObjectStorer interface.
 func (o *ObjectStorage) SetEncodedObject(obj plumbing.EncodedObject) (plumbing.Hash, error) {
 	return o.temporal.SetEncodedObject(obj)
+}
+
+// RawObjectWriter honors the storer.EncodedObjectStorer interface. Like
+// SetEncodedObject it writes to the temporal storage: without it the method
+// of the embedded base storage would be promoted and objects written this way
+// (e.g. by the packfile parser) would reach the base before Commit.
+func (o *ObjectStorage) RawObjectWriter(typ plumbing.ObjectType, sz int64) (io.WriteCloser, error) {
+	return o.temporal.RawObjectWriter(typ, sz)
 }
 
 // HasEncodedObject honors the storer.EncodedObjectStorer interface.
